@@ -68,6 +68,12 @@ Theorem T15_4a_remove_dead_ifs_stmt : forall env s ss, dead_if s = Some ss ->
 Proof. exact dead_if_sound. Qed.
 Print Assumptions T15_4a_remove_dead_ifs_stmt.
 
+(* ... also with the `elif` guard of the rule (an `if` written as elif is never replaced) *)
+Theorem T15_4a_remove_dead_ifs_elif_guard : forall env is_elif s ss, dead_if_src is_elif s = Some ss ->
+  forall fuel rest, exec env (S fuel) (s :: rest) = exec env fuel (ss ++ rest).
+Proof. exact dead_if_src_sound. Qed.
+Print Assumptions T15_4a_remove_dead_ifs_elif_guard.
+
 (* delete_unreachable_code, If / While branch *)
 Theorem T15_4b_delete_unreachable_if : forall env s ss, unreachable_if s = Some ss ->
   forall fuel rest, exec env (S fuel) (s :: rest) = exec env (S fuel) (ss ++ rest) \/
